@@ -1,6 +1,7 @@
 import Bee2V.C11.Mem
 import Bee2V.C11.Prog
 import Bee2V.C11.Der
+import Bee2V.C11.DrvMath
 import Bee2V.Base.Proto
 /-
 C11 driver: the same op lines as harness/c11.c.
@@ -174,6 +175,10 @@ def progOf (fn : String) (a : List String) : Option (List Step) := do
   | "beltKWPUnwrap", [d, s, n, h, k, l] => do
     let h ← pP h
     pure (progKWPUnwrap x v (← pN d) (← pN s) (← pN n) (h.getD 0) (← pN k) (← pN l) h.isNone)
+  | "dstuPointCompress", [xp, p, _, no] =>
+    pure (progDstuCompress x v (← pN xp) (← pN p) (← pN no))
+  | "dstuPointRecover", [p, xp, _, no] =>
+    pure (progDstuRecover g v (← pN p) (← pN xp) (← pN no))
   | "beltKRP", [d, m, s, n, lev, h] =>
     pure (progKRP g (← pN d) (← pN m) (← pN s) (← pN n) (← pN lev) (← pN h))
   | _, _ => none
@@ -218,6 +223,7 @@ def handle (ts : List String) : String :=
   match ts with
   | fn :: a :: args =>
     if concreteFns.contains fn then withArena a fun ar => concrete fn ar args
+    else if DrvMath.fns.contains fn then withArena a fun ar => DrvMath.op fn ar args
     else if fn.startsWith "der" then withArena a fun ar => decoder fn ar args
     else (abstractOp fn (a :: args)).getD "bad-op"
   | _ => "bad-op"
